@@ -24,6 +24,28 @@ Qed.
 Lemma concat_chunks {A} bs (l : list A) : (0 < bs)%nat -> concat (chunks bs l) = l.
 Proof. intros H. unfold chunks. apply concat_chunks_aux; [exact H|lia]. Qed.
 
+Section StackTraversal.
+  Context {L : Type}.
+  Fixpoint stack_size (st : list (tree L * list irow)) : nat :=
+    match st with [] => O | (T, _) :: st' => (tsize T + stack_size st')%nat end.
+
+  Lemma groups_loop_spec : forall fuel (st : list (tree L * list irow)) acc, (stack_size st < fuel)%nat ->
+    groups_loop fuel st acc = Some (acc ++ concat (map (fun Tr => groups (fst Tr) (snd Tr)) st)).
+  Proof.
+    induction fuel as [|f IH]; intros st acc H; [lia|]. destruct st as [|[T rows] st]; cbn [groups_loop].
+    - cbn. rewrite app_nil_r. reflexivity.
+    - destruct T as [m|v b l r].
+      + rewrite IH by (cbn in H; lia). cbn [map concat fst snd groups]. rewrite <- app_assoc. reflexivity.
+      + cbn [map concat fst snd groups]. cbn [stack_size tsize] in H.
+        repeat match goal with |- context [is_nil ?x] => let E := fresh "E" in destruct (is_nil x) eqn:E end;
+          rewrite IH by (cbn [stack_size]; lia); cbn [map concat fst snd app]; rewrite <- ?app_assoc; reflexivity.
+  Qed.
+
+  (* the iterative traversal of the code computes the recursive left-first grouping, for every tree and batch *)
+  Theorem groups_iter_spec (T : tree L) rows : groups_iter T rows = Some (groups T rows).
+  Proof. unfold groups_iter. rewrite groups_loop_spec by (cbn; lia). cbn. rewrite app_nil_r. reflexivity. Qed.
+End StackTraversal.
+
 Section Spec.
   Context {L V : Type} (f : L -> list Q -> V).
 
